@@ -58,8 +58,11 @@ def well_formed_cases(rng, quick):
     for st in list(range(10, 70)) if not quick else [10, 11, 19, 20, 21, 29, 30, 31, 39, 40, 44, 49, 50, 51, 59, 60, 61, 69]:
         if 20 <= st <= 29:
             continue
-        meta = rng.choice(["", "Not found", "gemini://example.org/elsewhere", "Enter your name", "x" * 1024, "é" * 400, "Retry after 30 seconds", "a;b=c; d", "  spaced  "])
-        cases.append((f"{st} {meta}\r\n".encode(), f"non2x", f"{st // 10}x", "n/a"))
+        metas = ["", "Not found", "gemini://example.org/elsewhere", "Enter your name", "x" * 1024, "é" * 400, "Retry after 30 seconds", "a;b=c; d", "  spaced  ",
+                 "é" * 512, "tab\there", "\x7f\x1b[31mred", "nul\x00meta", "€" * 341 + "x", "20 text/gemini", "quote\"s'"]
+        # quick: two metas per status; thorough: every meta with every status
+        for meta in (rng.sample(metas, 2) if quick else metas):
+            cases.append((f"{st} {meta}\r\n".encode(), f"non2x", f"{st // 10}x", "n/a"))
     for cs, text in CHARSETS:
         body = (text or TEXT).encode(cs)
         for st in (20, 21):
